@@ -231,6 +231,9 @@ TIER = "quick"
 
 def launch(cdir, job, idx, subseed, budget_ms, outdir, replay=None, max_runs=0):
     env = go_env()
+    # the harness processes run like the tool does for a user: no workspace
+    # override in the environment (the code under test pins what it needs)
+    env.pop("GOWORK", None)
     cfg = dict(job.get("cfg", {}), tier=TIER)
     if TIER == "thorough":
         cfg.update(job.get("thorough_cfg", {}))
